@@ -14,6 +14,7 @@ pub mod embedprops;
 pub mod handleprops;
 pub mod pairprops;
 pub mod pathprops;
+pub mod timeprops;
 pub mod treeprops;
 
 pub fn run_check(ctx: &Ctx, id: &str) -> i32 {
@@ -22,6 +23,7 @@ pub fn run_check(ctx: &Ctx, id: &str) -> i32 {
         "C04" => handleprops::run_c04(ctx),
         "C14" => handleprops::run_c14(ctx),
         "C02" => pairprops::run_c02(ctx),
+        "C19" => timeprops::run_c19(ctx),
         "C18" => embedprops::run_c18(ctx),
         "C06" => pathprops::run_c06(ctx),
         "C07" => pairprops::run_c07(ctx),
